@@ -276,9 +276,21 @@ def rule_limits(ctx: Ctx, rep: Report) -> None:
     # initial stack element sizes
     for q, what in ((f"{ENG}._verify_witness_v0", "p2wsh initial stack"), (f"{TAP}.verify_script_path_vc0", "tapscript initial stack")):
         fi = ctx.func(q)
-        ok = any(c.op == "truthy" and c.node is not None and any(
-            PT.match(PT.compile_("any((len($v) > MAX_SCRIPT_ELEMENT_SIZE for $v in $$it))"), x, {}) or PT.match(PT.compile_("max((len($v) for $v in $$it)) > MAX_SCRIPT_ELEMENT_SIZE"), x, {})
-            for x in ast.walk(c.node)) for c in refusal_constraints(ctx, fi))
+        its: list[str] = []
+        for c in refusal_constraints(ctx, fi):
+            if c.op != "truthy" or c.node is None:
+                continue
+            for x in ast.walk(c.node):
+                b_: dict[str, str] = {}
+                if PT.match(PT.compile_("any((len($v) > MAX_SCRIPT_ELEMENT_SIZE for $v in $$it))"), x, b_) or PT.match(PT.compile_("max((len($v) for $v in $$it)) > MAX_SCRIPT_ELEMENT_SIZE"), x, b_):
+                    its.append(b_.get("$$it", ""))
+        ok = bool(its)
+        if ok and "witness_v0" in fi.name:
+            # the last element of a p2wsh witness is the witness script (up to 10 000 bytes): only what precedes it is held to 520
+            from sa.canon import expand as _ex
+            okx = any(_ex(fi, i).replace(" ", "").endswith("[:-1]") for i in its)
+            rep.ob(rule, f"{fi.name}:witness_script_not_an_element", okx, fi.where(), "the 520-byte limit is on stack[:-1]: the witness script itself may be longer" if okx else
+                   f"the 520-byte element limit is applied to {its}: a witness script of 521..10000 bytes, which BIP141 allows, is refused")
         rep.ob(rule, f"{fi.name}:initial_stack_520", ok, fi.where(), f"{what}: elements over 520 bytes refused")
 
 
@@ -565,7 +577,67 @@ def rule_params_forwarded_(ctx: Ctx, rep: Report) -> None:
     rule_params_forwarded(ctx, rep, "C08.params_forwarded", ('btclib.script.engine',), 100)
 
 
+def rule_f13_f14(ctx: Ctx, rep: Report) -> None:
+    """C08.core_order: two orderings Core's interpreter fixes.
+    (F13) ExecuteWitnessScript scans a tapscript for OP_SUCCESSx *before* the
+    witness element size limit ("overrides everything, including stack element
+    size limits"): the 520-byte refusal must not be reachable ahead of the
+    OP_SUCCESS arm. (F14) CheckPubKeyEncoding under WITNESS_PUBKEYTYPE fails the
+    script for every key that is not IsCompressedPubKey -- so that refusal sits
+    ahead of every `return False` / `return <shape test>` of check_pub_key."""
+    rule = "C08.core_order"
+    vs = ctx.func(f"{TAP}.verify_script_path_vc0")
+    g = ctx.cfg(vs)
+    size = [n for t, pol, n in ctx.refusals(vs) if pol and any(
+        PT.match(PT.compile_("any((len($v) > MAX_SCRIPT_ELEMENT_SIZE for $v in $$it))"), x, {}) for x in ast.walk(t))]
+    succ = [n for n in g.nodes if n.kind == "test" and n.ast is not None and "OP_SUCCESS" in str(norm(n.ast)) and "DISCOURAGE" not in str(norm(n.ast))]
+    if not size or not succ:
+        rep.unknown(rule, "tapscript:op_success_before_element_size", vs.where(), "the OP_SUCCESS arm or the element size refusal is not in the shape this rule reads")
+    else:
+        early = g.path_avoiding([n.id for n in size], [n.id for n in succ])
+        rep.ob(rule, "tapscript:op_success_before_element_size", early is None, vs.where(size[0].ast),
+               "the OP_SUCCESS scan precedes the 520-byte element limit" if early is None else
+               "the 520-byte witness element limit is applied before the OP_SUCCESS scan: a tapscript with an OP_SUCCESS and an oversize witness element is refused where Core accepts")
+    cp = ctx.func(f"{LEG}.check_pub_key")
+    g2 = ctx.cfg(cp)
+    wp = [n for t, pol, n in ctx.refusals(cp) if any("WITNESS_PUBKEYTYPE" in str(x) for x, p_ in list(g2.facts()[n.id]) + [(norm(t), pol)])]
+    rets = [n for n in g2.nodes if n.kind == "stmt" and isinstance(n.ast, ast.Return)]
+    if not wp:
+        rep.ob(rule, "check_pub_key:witness_pubkeytype", False, cp.where(), "no refusal under WITNESS_PUBKEYTYPE")
+    else:
+        # every return reachable under (segwit and WITNESS_PUBKEYTYPE) must be behind the refusal's test
+        asked = [m.id for m in g2.nodes if m.kind == "test" and any(m.stmt is w.stmt for w in wp)]  # every leaf of the refusing `if`
+        skipped = [r for r in rets if g2.path_avoiding([r.id], asked) is not None
+                   and not (isinstance(r.ast.value, ast.Constant) and r.ast.value.value is True)]
+        # a return ahead of the test is fine only if it answers for a well-formed compressed key
+        rep.ob(rule, "check_pub_key:witness_pubkeytype_first", not skipped, cp.where(skipped[0].ast if skipped else wp[0].ast),
+               "no verdict on the key's shape is given before WITNESS_PUBKEYTYPE has been asked" if not skipped else
+               f"`{norm(skipped[0].ast)}` answers for a malformed key before WITNESS_PUBKEYTYPE is asked: in a witness v0 script the CHECKSIG fails quietly where Core fails the script")
+        ok_shape = any(PT.match(PT.compile_("len(pub_key) == 33"), x, {}) for n in g2.nodes if n.ast is not None for x in ast.walk(n.ast) if isinstance(x, ast.Compare))
+        rep.ob(rule, "check_pub_key:compressed_shape", ok_shape, cp.where(), "compressed = 33 octets behind 0x02 / 0x03")
+
+
+def rule_foreign_errors(ctx: Ctx, rep: Report) -> None:
+    """C08.foreign_errors: "a refusal is always the library's script error and
+    never an unrelated exception" -- the two places the engine hands a key and
+    a signature to libsecp256k1 catch the bindings' plain ValueError (a key of
+    legal shape that is not on the curve) and answer False, as the Python arm
+    does. C04's handler-coverage rule, read for the script package."""
+    from rules import C04
+    tmp = Report("C04", rep.tier)
+    tmp.quiet = True
+    C04.rule_no_foreign_escape(ctx, tmp)
+    n = 0
+    for o in tmp.obs:
+        if o.instance.startswith("btclib.script."):
+            n += 1
+            rep.ob("C08.foreign_errors", o.instance, o.held, o.site, o.detail)
+    rep.floor("C08.foreign_errors", 2)
+
+
 RULES = [
+    ("C08.foreign_errors", rule_foreign_errors),
+    ("C08.core_order", rule_f13_f14),
     ("C08.params_forwarded", rule_params_forwarded_),
     ("C08.opcodes", rule_opcodes),
     ("C08.limits", rule_limits),
@@ -576,6 +648,14 @@ RULES = [
 ]
 
 CONTROLS = [
+    {"rule": "C08.core_order", "name": "the element size limit is applied before the OP_SUCCESS scan (F13)", "module": TAP,
+     "edit": lambda ctx: M.sub_expr(ctx, f"{TAP}.verify_script_path_vc0", lambda n: isinstance(n, ast.Assign) and "parse(script_bytes" in norm(n.value),
+                                    "if any(len(x) > MAX_SCRIPT_ELEMENT_SIZE for x in stack):\n        raise BTClibValueError('early')\n    script = parse(script_bytes, exit_on_op_success=True)")},
+    {"rule": "C08.core_order", "name": "a malformed key is answered False before WITNESS_PUBKEYTYPE is asked (F14)", "module": LEG,
+     "edit": lambda ctx: M.sub_expr(ctx, f"{LEG}.check_pub_key", lambda n: isinstance(n, ast.Expr) and "assert_type(segwit" in norm(n),
+                                    "assert_type(segwit, bool, 'segwit')\n    if not pub_key or pub_key[0] not in {2, 3, 4, 6, 7}:\n        return False")},
+    {"rule": "C08.foreign_errors", "name": "the engine's ECDSA arm catches the library's ValueError only", "module": LEG,
+     "edit": lambda ctx: M.sub_expr(ctx, f"{LEG}.dsa_verify", lambda n: isinstance(n, ast.ExceptHandler) and norm(n.type) == "ValueError", lambda n: norm(n).replace("except ValueError", "except BTClibValueError", 1))},
     {"rule": "C08.opcodes", "name": "OP_CAT re-enabled by dropping it from the disabled set", "module": LEG,
      "edit": lambda ctx: M.sub_module_expr(ctx, LEG, lambda n: isinstance(n, ast.Constant) and n.value == "OP_CAT", '"OP_SIZE"')},
     {"rule": "C08.opcodes", "name": "tapscript OP_SUCCESS list loses 0x50", "module": "btclib.script.op_codes_tapscript",
